@@ -10,6 +10,7 @@ import itertools
 import re
 from fractions import Fraction
 
+from mc import shared
 from mc.acc import Acc
 from mc.ref import parsers
 
@@ -137,7 +138,7 @@ def eval_dfxp(spec, video, fit, level):
     v = []
     klass = "+".join(sorted({spec[a][1] for a in AXES if spec[a][1] != "%"})) or "percent"
     try:
-        doc = DFXPWriter(relativize=True, video_width=vw, video_height=vh, fit_to_screen=fit).write(mk_set(mk_layout(spec), level))
+        doc = shared.obj(DFXPWriter, relativize=True, video_width=vw, video_height=vh, fit_to_screen=fit).write(mk_set(mk_layout(spec), level))
     except RelativizationError:
         if not want_err:
             v.append((f"C13/dfxp/unexpected-RelativizationError/{klass}", {"spec": spec, "video": video}))
@@ -189,7 +190,7 @@ def eval_sami(spec, video):
     klass = "+".join(sorted({spec[a][1] for a in AXES if spec[a][1] != "%"})) or "percent"
     v = []
     try:
-        doc = SAMIWriter(relativize=True, video_width=vw, video_height=vh, fit_to_screen=False).write(mk_set(mk_layout(spec), "lang"))
+        doc = shared.obj(SAMIWriter, relativize=True, video_width=vw, video_height=vh, fit_to_screen=False).write(mk_set(mk_layout(spec), "lang"))
     except RelativizationError:
         if not want_err:
             v.append((f"C13/sami/unexpected-RelativizationError/{klass}", {"spec": spec, "video": video}))
@@ -225,7 +226,7 @@ def eval_vtt(spec, video, relativize):
     want_err = relativize and any(e == "error" for e in exp.values())
     v = []
     try:
-        doc = WebVTTWriter(relativize=relativize, video_width=vw, video_height=vh, fit_to_screen=False).write(mk_set(mk_layout(spec, True, False)))
+        doc = shared.obj(WebVTTWriter, relativize=relativize, video_width=vw, video_height=vh, fit_to_screen=False).write(mk_set(mk_layout(spec, True, False)))
     except RelativizationError:
         if not want_err:
             v.append((f"C13/webvtt/unexpected-RelativizationError/{klass}", {"spec": spec, "video": video}))
@@ -284,7 +285,7 @@ def eval_fit(x, y, wrel, hrel, level):
     if roomx < 0 or roomy < 0:
         return [], "outside-safe-area"
     try:
-        doc = DFXPWriter(fit_to_screen=True).write(mk_set(layout, level))
+        doc = shared.obj(DFXPWriter, fit_to_screen=True).write(mk_set(layout, level))
     except Exception as e:  # noqa
         return [(f"C13/fit/raises:{type(e).__name__}", {"err": str(e)[:200]})], "raises"
     attrs = dfxp_region_attrs(doc)
@@ -303,8 +304,33 @@ def eval_fit(x, y, wrel, hrel, level):
 
 
 # -------------------------------------------------------------------------------------------------
+def reuse_items():
+    items = []
+    i = 0
+    for a in AXES:
+        for unit in UNITS:
+            for val in ("7", "33.333", "128.01"):
+                spec = spec_with(**{a: (val, unit)})
+                video = VIDEO[i % 2]  # (640,360) / (1920,1080): the same writer objects see many layouts
+                items.append(("dfxp", spec, video, bool(i % 2), ("caption", "node", "lang")[i % 3]))
+                if a in ("ps", "pe", "pb", "pa"):
+                    items.append(("sami", spec, video))
+                else:
+                    items.append(("vtt", spec, video, True))
+                i += 1
+    return items
+
+
+def reuse_eval(item):
+    if item[0] == "dfxp":
+        return eval_dfxp(item[1], item[2], item[3], item[4])
+    if item[0] == "sami":
+        return eval_sami(item[1], item[2])
+    return eval_vtt(item[1], item[2], item[3])
+
+
 def shards(tier, seed):
-    sh = []
+    sh = [{"k": "reuse"}]
     for a in AXES:
         sh.append({"k": "dfxp1", "axis": a, "tier": tier})
     if tier == "thorough":
@@ -330,7 +356,9 @@ def run_shard(d):
     k = d["k"]
     VALUES = bounds(d.get("tier", "quick"))["values"]  # noqa: N806
     VIDEO = bounds(d.get("tier", "quick"))["video"]  # noqa: N806
-    if k == "dfxp1":
+    if k == "reuse":
+        shared.run(acc, reuse_items(), reuse_eval, sample=lambda it: {"reuse_run_step": list(it)})
+    elif k == "dfxp1":
         a = d["axis"]
         for unit in UNITS:
             for val in VALUES:
@@ -404,6 +432,8 @@ def run_shard(d):
 
 
 def replay(case):
+    if case.get("reuse"):
+        return shared.replay(reuse_items(), reuse_eval, case["index"])
     k = case["k"]
     if k in ("dfxp", "sami", "vtt"):
         spec = {a: tuple(x) for a, x in case["spec"].items()}
